@@ -39,10 +39,32 @@ def digest_tree(root: Path) -> Dict[str, str]:
     return out
 
 
-def run_generation(workdir: Path, strategy: str, hashseed: str) -> Tuple[int, str]:
+SITECUSTOMIZE = '''
+# injected by the verification harness: directory enumeration order is a property of the file system (creation order on some, hash order on
+# others); a seeded shuffle of what Path.glob yields stands for "another file system / another creation order"
+import os, pathlib, random
+_seed = os.environ.get("VF_GLOB_SHUFFLE")
+if _seed:
+    _orig = pathlib.Path.glob
+    def _glob(self, *a, **k):
+        items = list(_orig(self, *a, **k))
+        random.Random(int(_seed)).shuffle(items)
+        return iter(items)
+    pathlib.Path.glob = _glob
+'''
+
+
+def run_generation(workdir: Path, strategy: str, hashseed: str, glob_shuffle: Optional[int] = None) -> Tuple[int, str]:
     env = dict(os.environ)
     env["PYTHONHASHSEED"] = hashseed
-    env["PYTHONPATH"] = str(core.REPO)
+    inj = workdir.parent / "_inject"
+    inj.mkdir(exist_ok=True)
+    (inj / "sitecustomize.py").write_text(SITECUSTOMIZE)
+    env["PYTHONPATH"] = str(core.REPO) + os.pathsep + str(inj)
+    if glob_shuffle is not None:
+        env["VF_GLOB_SHUFFLE"] = str(glob_shuffle)
+    else:
+        env.pop("VF_GLOB_SHUFFLE", None)
     env["PYTHONDONTWRITEBYTECODE"] = "1"
     p = subprocess.run(["/venv/bin/python", "-W", "ignore", "-m", "ariadne_codegen", strategy], cwd=workdir, env=env, capture_output=True, text=True, timeout=300)
     return p.returncode, (p.stdout + p.stderr)[-1500:]
@@ -65,10 +87,11 @@ def lay_out(workdir: Path, sdl_defs: List[str], query_defs: List[str], cfg: Dict
         exts = [".graphql", ".graphqls", ".gql"]
         for i, d in enumerate(sdl_defs):
             sub = ["", "a", "b/c"][i % 3]
-            jobs.append((workdir / "schema_dir" / sub / ("s%02d%s" % (i // 2, exts[i % 3])), d))
+            # the same file NAME recurs in different sub-directories (users/types.graphql, orders/types.graphql)
+            jobs.append((workdir / "schema_dir" / sub / ("types%d%s" % (i // 6, exts[(i // 3) % 3])), d))
         if strategy == "client":
             for i, d in enumerate(query_defs):
-                jobs.append((workdir / "queries_dir" / ["", "x"][i % 2] / ("q%02d%s" % (i // 2, exts[i % 3])), d))
+                jobs.append((workdir / "queries_dir" / ["", "x"][i % 2] / ("ops%d%s" % (i // 4, exts[(i // 2) % 3])), d))
         files: Dict[Path, List[str]] = {}
         for p, d in jobs:
             files.setdefault(p, []).append(d)
@@ -125,7 +148,7 @@ def one_case(case: Dict[str, Any]) -> Dict[str, Any]:
         for label, order, hs in variants:
             wd = base / label
             lay_out(wd, sdl_defs, query_defs, cfg, order, strategy)
-            rc, log = run_generation(wd, strategy, hs)
+            rc, log = run_generation(wd, strategy, hs, glob_shuffle=(order if order is not None else None))
             out["stats"]["runs"] = out["stats"].get("runs", 0) + 1
             if rc != 0:
                 logs[label] = log
@@ -187,7 +210,7 @@ def run(tier: str, seed: int) -> int:
               "shuffled mtimes, and regenerated over an existing generation; both strategies, graphqlschema with py and graphql targets; distinct = distinct feature-set")
     r.assumptions = ["sha256 equality of every produced file is byte identity"]
     r.floors = {"runs": 200, "comparisons": 100}
-    n = 120 if tier == "thorough" else 26
+    n = 120 if tier == "thorough" else 40
     cases = []
     for i in range(n):
         strategy = "client" if i % 5 != 4 else "graphqlschema"
